@@ -1,10 +1,20 @@
 #!/bin/sh
 # tools/mkwork.sh <name> : scratch worktrees for one worker under /tmp/wk/<name>/{verif,repo}
+# on branch agent/<name> of both repositories.  An existing branch is RESUMED (never reset);
+# main is merged into it so the worker sees what landed meanwhile.
 set -e
 n="$1"; d=/tmp/wk/$n
 mkdir -p "$d"
-git -C /verif worktree add -q -B "agent/$n" "$d/verif" HEAD
-git -C /repo worktree add -q -B "agent/$n" "$d/repo" HEAD
+for r in verif repo; do
+  if [ -d "$d/$r/.git" ] || [ -f "$d/$r/.git" ]; then continue; fi
+  git -C /$r worktree prune
+  if git -C /$r rev-parse -q --verify "agent/$n" >/dev/null; then
+    git -C /$r worktree add -q "$d/$r" "agent/$n"
+    (cd "$d/$r" && git merge -q -m "merge main into agent/$n" main >/dev/null 2>&1 || echo "NOTE: merge of main into agent/$n ($r) needs manual resolution" >&2)
+  else
+    git -C /$r worktree add -q -b "agent/$n" "$d/$r" main
+  fi
+done
 echo "$d/repo" > "$d/verif/.cello_repo"
 (cd "$d/repo" && make -s >/dev/null 2>&1 || true)
 echo "$d"
